@@ -44,6 +44,7 @@ theorem rmNode_nofault : ∀ (n : Node) (e : Env), e.faults = [] →
     (∀ es, n = .dir es → (rmNode e n).2.1 = none ∧ (rmNode e n).2.2 = true) ∧
     (rmNode e n).1.faults = []
   | .file d, e, h => by simp [rmNode, h]
+  | .link t, e, h => by simp [rmNode, h]
   | .dir es, e, h => by
     obtain ⟨h1, h2, h3⟩ := rmEnts_nofault es e h
     have t := tick_nofault (rmEnts e es).1 .rmdir h3
@@ -55,6 +56,11 @@ theorem rmEnts_nofault : ∀ (es : Ents) (e : Env), e.faults = [] →
     (rmEnts e es).2.1 = .nil ∧ (rmEnts e es).2.2 = true ∧ (rmEnts e es).1.faults = []
   | .nil, e, h => by simp [rmEnts, h]
   | .cons name (.file d) rest, e, h => by
+    have t := tick_nofault e .stat h
+    have t2 := tick_nofault (e.tick .stat).1 .unlink t.2
+    have := rmEnts_nofault rest ((e.tick .stat).1.tick .unlink).1 t2.2
+    simp [rmEnts, t.1, t2.1, this]
+  | .cons name (.link tg) rest, e, h => by
     have t := tick_nofault e .stat h
     have t2 := tick_nofault (e.tick .stat).1 .unlink t.2
     have := rmEnts_nofault rest ((e.tick .stat).1.tick .unlink).1 t2.2
